@@ -1,9 +1,15 @@
 // Copyright Amazon.com, Inc. or its affiliates. All Rights Reserved.
 // SPDX-License-Identifier: GPL-2.0-only
 
+#[cfg(not(aws_clock_bound_verif))]
 use std::collections::HashMap;
+#[cfg(aws_clock_bound_verif)]
+use verif_rt::HashMap;
 use std::hash::Hash;
+#[cfg(not(aws_clock_bound_verif))]
 use std::sync::mpsc;
+#[cfg(aws_clock_bound_verif)]
+use verif_rt::mpsc;
 
 /// Create a web of MPSC channels.
 ///
